@@ -273,16 +273,20 @@ def judge(sc, res):
     last_expected = fatal_at if fatal_at is not None else len(sc["steps"])
     # every step before the fatal one was answered, in order, exactly once
     exp_order = [str(s["idx"]) for s in sc["steps"] if s["idx"] < last_expected] + ([] if fatal_at is not None else ["done"])
-    if order != exp_order:
-        bad.append(("daemon-steps-ran", {"expected_marks": exp_order, "got": order}))
+    if fatal_at is None:
+        if order != exp_order:
+            bad.append(("daemon-steps-ran", {"expected_marks": exp_order, "got": order}))
+    else:
+        # the helper process that receives the failure kills the daemon asynchronously: the script may still record the
+        # failing step itself (never as a success); what ran before it is fixed
+        if order[:len(exp_order)] != exp_order:
+            bad.append(("daemon-steps-ran", {"expected_marks": exp_order, "got": order}))
+        if marks.get(str(fatal_at)) == "0":
+            bad.append(("daemon-failure-seen-as-success", {"step": sc["steps"][fatal_at], "rc": "0"}))
     for s in sc["steps"]:
         i = s["idx"]
         if i >= last_expected:
             # after (or at) the fatal failure nothing may have been installed by later steps
-            if i > last_expected:
-                for rel, typ, det in s["entries"]:
-                    if rel.replace("@PF@", pf(eapi)) in image:
-                        bad.append(("daemon-ran-after-fatal-failure", {"step": s, "entry": rel}))
             continue
         rc = marks.get(str(i))
         if rc is None:
